@@ -187,9 +187,18 @@ impl PutQuery {
     }
 
     fn most_common_error(&self) -> Option<(u8, PutError)> {
+        // 301 and 302 are only meaningful for mutable items; for any other kind of
+        // PUT they are just an error response, and callers of those APIs do not
+        // expect (and panic on) concurrency errors.
+        let is_put_mutable = matches!(self.request, PutRequestSpecific::PutMutable(_));
+
         self.errors
             .first()
             .and_then(|(count, error)| match error.code {
+                301 | 302 if !is_put_mutable => Some((
+                    *count,
+                    PutError::from(PutQueryError::ErrorResponse(error.clone())),
+                )),
                 301 => Some((*count, PutError::from(ConcurrencyError::CasFailed))),
                 302 => Some((*count, PutError::from(ConcurrencyError::NotMostRecent))),
                 _ => None,
